@@ -165,7 +165,7 @@ def check_fanout_post(case, part):
 def shard_fanout(cases):
     part = core.Part()
     for c in cases:
-        run_case(c, part)
+        core.guard(run_case, c, part)
     return part
 
 
